@@ -78,6 +78,9 @@ var templates = []tmpl{
 	{name: "augment-without-nodes-of-a-target-that-cannot-have-children", augment: true, files: []string{
 		`module m { ` + hdr("m") + ` yang-version 1.1; container top { leaf lf { type string; } leaf-list ll { type string; } anyxml ax; anydata ad; %PAD } }`,
 		`module a { ` + hdr("a") + ` import m { prefix m; } grouping nothing { description "no data nodes"; } augment /m:top/m:%LEAFY { %EMPTYBODY } }`}},
+	{name: "augment-through-an-implicit-case-brings-a-choice", clean: true, files: []string{
+		`module m { ` + hdr("m") + ` container c { choice ch { container x { leaf l { type string; } } } %PAD } }`,
+		`module b { ` + hdr("b") + ` import m { prefix m; } augment /m:c/m:ch/m:x/m:x { choice inner { leaf p { type string; } container q { choice deeper { leaf-list r { type string; } } } } leaf plain { type string; } } }`}},
 	{name: "not-supported-on-rpc-input-or-output", clean: true, gone: []string{"r"}, files: []string{
 		`module m { ` + hdr("m") + ` rpc r { input { leaf i { type string; } } output { leaf o { type string; } } } %PAD }`,
 		`module d { ` + hdr("d") + ` import m { prefix m; } deviation /m:r/m:%IO { deviate not-supported; } }`}},
@@ -193,6 +196,39 @@ func Run(j *job.Job, s *job.Sink) {
 				}
 			}
 			if t.clean && stranded == "" {
+				// whatever the late step brought is part of a proper tree: below a choice
+				// there are cases only, and nothing is left to be applied
+				var improper string
+				var chk func(e *yang.Entry, d int)
+				chk = func(e *yang.Entry, d int) {
+					if e == nil || d > 100 || improper != "" {
+						return
+					}
+					if len(e.Augments) > 0 {
+						improper = e.Path() + " still holds an augment"
+					}
+					for k, ce := range e.Dir {
+						if e.Kind == yang.ChoiceEntry && ce.Kind != yang.CaseEntry {
+							improper = fmt.Sprintf("%s: the child %s of a choice is not a case", e.Path(), k)
+						}
+						chk(ce, d+1)
+					}
+					if e.RPC != nil {
+						chk(e.RPC.Input, d+1)
+						chk(e.RPC.Output, d+1)
+					}
+				}
+				for _, m := range ms.Modules {
+					chk(yang.ToEntry(m), 0)
+				}
+				if improper != "" {
+					s.Violation(c, j.CaseID(c), j.Property+".latefault", "clean-result-with-improper-tree", t.name+": "+improper, cs, map[string]any{"template": t.name})
+					return
+				}
+				if t.gone == nil {
+					s.Count("clean_templates_held", 1)
+					return
+				}
 				// the deviation took effect: the named input or output is gone, the other stays
 				mname := "m"
 				if twoRevs {
